@@ -1,5 +1,6 @@
 import Dashu.Driver.Loop
 import Dashu.Model.Int.Bits
+import Dashu.Model.Int.BitsPrim
 import Dashu.Model.Int.Cmp
 /-
   Driver of group `bits` (C09, C05).  For every case it runs the mirrored model of the code as it
@@ -61,6 +62,9 @@ def uop (op : String) : Option ((Nat → TRepr → TRepr → TRepr) × (Int → 
   | "or" => some (TRepr.bitor, specOr)
   | "xor" => some (TRepr.bitxor, specXor)
   | _ => none
+
+def bitOp : String → Option BitOp
+  | "and" => some .and | "or" => some .or | "xor" => some .xor | _ => none
 
 def specTzStr (n : Nat) : String :=
   if n = 0 then "ok none" else match specTz n with
@@ -172,6 +176,14 @@ def dispatchCmp : Dispatch := fun W op args =>
     let sc := specFCmp 10 x y
     let s := "ok " ++ boolStr (sc == .eq) ++ " " ++ ordStr sc ++ " " ++ ordStr (specFCmp 10 y x)
     pure (chk m s)
+  | "f.fits", [b, o, sa, ea, pa, sb, eb, pb] => do
+    -- invariant check on the real code: every arithmetic result has at most precision+1 digits
+    -- (theorem `Props/C05.float_results_fit` for the modelled operations); the model side is the
+    -- constant the theorem predicts
+    let B ← b.toNat?
+    if B < 2 ∨ !(["add", "sub", "mul", "div", "sqr", "cubic", "sqrt", "addsub", "submul", "subsub"].contains o) then none
+    let _ ← parseFloat B sa ea pa; let _ ← parseFloat B sb eb pb
+    pure "ok true"
   | "f.routes", [sa, ea] => do
     let sg ← parseInt sa; let ex ← parseDec ea
     let x := (FRepr.mk sg ex).normalize 10
@@ -305,20 +317,39 @@ def dispatchBits : Dispatch := fun W op args =>
     pure (chk (outS W (ibigNot W (sOfInt W x))) ("ok " ++ intToHex (compl x)))
   -- ------------------------------------------------------------ primitives: convert, operate, `try_into().unwrap()`
   | ["up", o], [a, ty, v] => do
-    let (f, s) ← uop o
+    let bo ← bitOp o
     let x ← parseNat a; let (bits, signed) ← primType ty; let p ← parseInt v
     if signed ∨ !primInRange bits signed p then none
-    let r := f W (ofNat W x) (ofNat W p.toNat)
-    let m := if o = "and" ∧ ¬ r.value W < 2 ^ bits then "panic Undocumented(unwrap)" else outU W r
-    pure (chk m ("ok " ++ intToHex (s x p)))
+    let r := ofNat W x
+    let m :=
+      if bo = .and then
+        let m0 := exc natToHex (ubigAndPrim W bits r p.toNat false)
+        let m1 := exc natToHex (ubigAndPrim W bits r p.toNat true)
+        if m0 = m1 then m0 else m0 ++ " !model-forms-disagree"
+      else
+        let m0 := outU W (ubigOpPrim W bo r p.toNat false)
+        let m1 := outU W (ubigOpPrim W bo r p.toNat true)
+        if m0 = m1 then m0 else m0 ++ " !model-forms-disagree"
+    pure (chk m ("ok " ++ intToHex (bo.spec x p)))
   | ["ip", o], [a, ty, v] => do
-    let (f, s) ← binop o
+    let bo ← bitOp o
     let x ← parseInt a; let (bits, signed) ← primType ty; let p ← parseInt v
     if !primInRange bits signed p then none
-    let r := f W (sOfInt W x) (sOfInt W p)
-    let m := if o = "and" ∧ !signed ∧ (r.neg ∨ ¬ r.mag.value W < 2 ^ bits) then "panic Undocumented(unwrap)"
-             else outS W r
-    pure (chk m ("ok " ++ intToHex (s x p)))
+    let r := sOfInt W x
+    let m :=
+      if signed then
+        let m0 := outS W (ibigOpPrimS W bits bo r p false)
+        let m1 := outS W (ibigOpPrimS W bits bo r p true)
+        if m0 = m1 then m0 else m0 ++ " !model-forms-disagree"
+      else if bo = .and then
+        let m0 := exc natToHex (ibigAndPrimU W bits r p.toNat false)
+        let m1 := exc natToHex (ibigAndPrimU W bits r p.toNat true)
+        if m0 = m1 then m0 else m0 ++ " !model-forms-disagree"
+      else
+        let m0 := outS W (ibigOpPrimU W bo r p.toNat false)
+        let m1 := outS W (ibigOpPrimU W bo r p.toNat true)
+        if m0 = m1 then m0 else m0 ++ " !model-forms-disagree"
+    pure (chk m ("ok " ++ intToHex (bo.spec x p)))
   | _, _ => none
 
 def dispatch : Dispatch := fun W op args =>
